@@ -178,4 +178,21 @@ __CPROVER_requires(g_written < (1UL << 60) && g_str_len < (1UL << 40) && g_ws_ca
 __CPROVER_assigns(g_written, g_ws_calls, g_ws_arg)
 __CPROVER_ensures(g_ws_calls == 1 && g_ws_arg == value && g_written == __CPROVER_old(g_written) + g_str_len)
 ;
+/* ---- enum with a signed 32-bit underlying type: written as varint64 of the sign-extended value (negative enumerators take 10 bytes),
+ * the predicted size agrees, and deserialize(serialize(v)) == v for every int32 value (truncation undoes the sign extension) */
+#define SX32(v) ((unsigned long)(long)(v))
+size_t Enum32Traits_calculate_serialized_size(int *value)
+__CPROVER_requires(__CPROVER_is_fresh(value, sizeof(*value))) __CPROVER_assigns()
+__CPROVER_ensures(__CPROVER_return_value == spec_varint_len(SX32(*value)))
+;
+void Enum32Traits_serialize(int *value, struct CodedOutputStream *os)
+__CPROVER_requires(__CPROVER_is_fresh(value, sizeof(*value)) && g_written < (1UL << 60)) __CPROVER_assigns(g_written, g_w_last)
+__CPROVER_ensures(g_written == __CPROVER_old(g_written) + spec_varint_len(SX32(*value)) && g_w_last == SX32(*value))
+;
+_Bool Enum32Traits_deserialize(struct CodedInputStream *is, int *value)
+__CPROVER_requires(__CPROVER_is_fresh(value, sizeof(*value)) && g_consumed < (1UL << 60)) __CPROVER_assigns(*value, g_consumed, g_last_varint)
+__CPROVER_ensures(__CPROVER_return_value ==> (*value == (int)g_last_varint && g_consumed == __CPROVER_old(g_consumed) + spec_varint_len(g_last_varint)))
+__CPROVER_ensures((__CPROVER_return_value && g_last_varint == SX32((int)g_scalar)) ==> *value == (int)g_scalar)
+__CPROVER_ensures(!__CPROVER_return_value ==> *value == __CPROVER_old(*value))
+;
 #endif
